@@ -1693,7 +1693,8 @@ class WhenResModel(Comp):
 
     def norm(self, line, out):
         if out.startswith("V") or out.startswith("I") or out == "" or out.startswith("E "):
-            return out                               # the model's answer
+            # the model's answer; J=1: the executable instance of C07_when_resolution_phases_ext held on this call
+            return out.replace(" J=1", "")
         if oracles_mod.crashed(out):
             return out
         from vlib import unhex
